@@ -5,6 +5,7 @@
 package larking
 
 import (
+	"bytes"
 	"encoding/binary"
 	"fmt"
 	"io"
@@ -221,6 +222,9 @@ func (c CodecJSON) ReadNext(b []byte, r io.Reader, limit int) ([]byte, int, erro
 				err = nil // consume the data returned with EOF first
 			}
 			if err != nil {
+				if err == io.EOF && braceCount == 0 && len(bytes.TrimSpace(b)) == 0 {
+					b = b[:0] // only whitespace followed the last message
+				}
 				return b, 0, err
 			}
 		}
